@@ -16,10 +16,12 @@
   `St.clobbered` is a ghost flag: `InodeStore::insert` replaced a live entry.
 
   Status.  Full strength for `use_host_ino = false` (both `inode_file_handles` modes, every
-  history).  For `use_host_ino = true` the refinement is proved under `clobbered = false`
-  (`…_hostino_partial`) and `hostino_reuse_counterexample` shows that the hypothesis cannot be
-  dropped: known finding `C08:number-aliased:host-ino-reused-while-held`
-  (inode_file_handles ∧ use_host_ino, host inode number reused while the old file is referenced).
+  history) and for `use_host_ino = true` with `inode_file_handles = false` (`NoHandles`: no host
+  answer carries a file handle; `refcount_refines_spec_hostino`).  For `use_host_ino = true` with
+  file handles the refinement is proved under `clobbered = false` (`…_hostino_partial`) and
+  `hostino_reuse_counterexample` shows that the hypothesis cannot be dropped there: known finding
+  `C08:number-aliased:host-ino-reused-while-held` (inode_file_handles ∧ use_host_ino, host inode
+  number reused while the old file is referenced).
 -/
 import Fbr.PtRefs
 import Fbr.PtSpec
@@ -30,6 +32,7 @@ import Fbr.Lemmas.PtRefsBasic
 import Fbr.Lemmas.PtRun
 import Fbr.Lemmas.PtFresh
 import Fbr.Lemmas.PtSession
+import Fbr.Lemmas.PtUniq
 
 namespace Fbr.Thm.C08
 open Fbr.PtRefs
@@ -48,11 +51,25 @@ theorem refcount_refines_spec (e : Env) (hk : e.useHostIno = false) (h : History
     Ref (run e St.fresh h).1 (Spec.init.run h (run e St.fresh h).2) :=
   (run_good e h ⟨never_clobbers_keep e hk h, hsat⟩).ref
 
-/-- The same refinement in either mode, for histories in which no insert replaced a live entry.
-    PARTIAL: with `use_host_ino = true` the hypothesis `clobbered = false` is not discharged (it
-    fails for `inode_file_handles ∧ use_host_ino` when the host reuses an inode number, see the
-    counterexample; for `inode_file_handles = false` it holds on every run of the correspondence
-    harness but the packing invariant needed to prove it is not formalised here). -/
+/-- **Every history, `use_host_ino = true`, `inode_file_handles = false`** (`NoHandles h`: no host
+    answer of the history — lookups, created entries, readdirplus records, the imported root —
+    carries a file handle, i.e. `name_to_handle_at` is never used): the same refinement at full
+    strength, no ghost hypothesis about replaced entries.  Inode numbers are
+    `(uid << 47) | st_ino` (uid = small id of the (dev, mnt) pair) or remembered virtual numbers;
+    an entry kept by descriptor is always found by its `InodeId`, the packing is injective, so an
+    insert never lands on a number in use (`never_clobbers_hostino`, invariant `HU` threaded through
+    the effect relation together with the allocator facts `LkU`). -/
+theorem refcount_refines_spec_hostino (e : Env) (hk : e.useHostIno = true) (h : History) (hnh : NoHandles h)
+    (hsat : (run e St.fresh h).1.lookups + 2 < U64_MAX) :
+    Ref (run e St.fresh h).1 (Spec.init.run h (run e St.fresh h).2) :=
+  (run_good e h ⟨never_clobbers_hostino e hk h hnh, hsat⟩).ref
+
+/-- The same refinement in any mode, for histories in which no insert replaced a live entry.
+    PARTIAL only for `use_host_ino = true` **with** file handles: there the hypothesis
+    `clobbered = false` cannot be discharged — it fails when the host reuses an inode number while
+    the old file is still referenced (see the counterexample, a known finding of the code).  In
+    every other configuration it is discharged: `refcount_refines_spec` (`use_host_ino = false`),
+    `refcount_refines_spec_hostino` (`use_host_ino = true`, no file handles). -/
 theorem refcount_refines_spec_hostino_partial (e : Env) (h : History)
     (hcl : (run e St.fresh h).1.clobbered = false)
     (hsat : (run e St.fresh h).1.lookups + 2 < U64_MAX) :
@@ -88,6 +105,24 @@ theorem valid_iff_positive (e : Env) (hk : e.useHostIno = false) (h : History)
     (mget (run e St.fresh h).1.data i).isSome = true
       ↔ 0 < (Spec.init.run h (run e St.fresh h).2).held i := by
   have := refcount_refines_spec e hk h hsat i hi
+  cases hm : mget (run e St.fresh h).1.data i with
+  | none =>
+    rw [hm] at this
+    by_cases hz : (Spec.init.run h (run e St.fresh h).2).held i = 0
+    · simp [hz]
+    · simp [hz] at this
+  | some d =>
+    rw [hm] at this
+    by_cases hz : (Spec.init.run h (run e St.fresh h).2).held i = 0
+    · simp [hz] at this
+    · simp; omega
+
+/-- …and with `use_host_ino = true`, `inode_file_handles = false` -/
+theorem valid_iff_positive_hostino (e : Env) (hk : e.useHostIno = true) (h : History) (hnh : NoHandles h)
+    (hsat : (run e St.fresh h).1.lookups + 2 < U64_MAX) (i : Ino) (hi : i ≠ ROOT_ID) :
+    (mget (run e St.fresh h).1.data i).isSome = true
+      ↔ 0 < (Spec.init.run h (run e St.fresh h).2).held i := by
+  have := refcount_refines_spec_hostino e hk h hnh hsat i hi
   cases hm : mget (run e St.fresh h).1.data i with
   | none =>
     rw [hm] at this
@@ -203,6 +238,32 @@ example :
     ∧ (Spec.init.run exHist (run exEnv St.fresh exHist).2).held 2 = 1
     ∧ mget (run exEnv St.fresh exHist).1.data 3 = none
     ∧ (Spec.init.run exHist (run exEnv St.fresh exHist).2).held 3 = 0 := by
+  decide
+
+/-- `use_host_ino = true` without file handles: two files with the same `st_ino` on different
+    devices get different numbers (uid 1 and 2), the file with a host inode number above
+    `MAX_HOST_INO` gets a virtual number and — forgotten and looked up again — the same one -/
+def hiHist : History :=
+  [ (none, .init (.ok { id := ⟨0, 0, 0⟩, fh := none, safe := true, dir := true })),
+    (none, .lookup ROOT_ID false (.ok { id := ⟨5, 0, 0⟩, fh := none, safe := true })),
+    (none, .lookup ROOT_ID false (.ok { id := ⟨5, 1, 0⟩, fh := none, safe := true })),
+    (none, .lookup ROOT_ID false (.ok { id := ⟨2 ^ 50, 0, 0⟩, fh := none, safe := true })),
+    (none, .forget (packIno 1 (2 ||| VIRTUAL_INODE_FLAG)) 1),
+    (none, .lookup ROOT_ID false (.ok { id := ⟨2 ^ 50, 0, 0⟩, fh := none, safe := true })),
+    (none, .lookup ROOT_ID false (.ok { id := ⟨5, 0, 0⟩, fh := none, safe := true })) ]
+
+example : NoHandles hiHist := by
+  intro x hx
+  simp only [hiHist, List.mem_cons, List.not_mem_nil, or_false] at hx
+  rcases hx with rfl | rfl | rfl | rfl | rfl | rfl | rfl <;> first | rfl | trivial
+
+example :
+    (run cexEnv St.fresh hiHist).2.map (fun r => match r with | .entry i => i | _ => 0) =
+      [0, packIno 1 5, packIno 2 5, packIno 1 (2 ||| VIRTUAL_INODE_FLAG), 0, packIno 1 (2 ||| VIRTUAL_INODE_FLAG), packIno 1 5]
+    ∧ (run cexEnv St.fresh hiHist).1.lookups + 2 < U64_MAX
+    ∧ (run cexEnv St.fresh hiHist).1.clobbered = false
+    ∧ (mget (run cexEnv St.fresh hiHist).1.data (packIno 1 5)).map (·.refs) = some 2
+    ∧ (Spec.init.run hiHist (run cexEnv St.fresh hiHist).2).held (packIno 1 5) = 2 := by
   decide
 
 end Fbr.Thm.C08
